@@ -13,7 +13,7 @@
    layers.  The implementation-level oracle runs the complete round trip on every accepted string of every archetype
    and on the 119 documented strings; the erasure itself is evaluated with the extracted [erase_ext]. *)
 From Coq Require Import List ZArith QArith Ascii String Bool.
-From GBS Require Import Model.PyStr Model.Num Model.Bond Model.Token Model.Render Src.SrcBond Proofs.BondP Proofs.TokenP Proofs.RenderP Proofs.StrP Proofs.RoundTrip Src.SrcDescr Proofs.DescrSrcP.
+From GBS Require Import Model.PyStr Model.Num Model.Bond Model.Token Model.Render Src.SrcBond Proofs.BondP Proofs.TokenP Proofs.RenderP Proofs.StrP Proofs.RoundTrip Src.SrcDescr Proofs.DescrSrcP Src.SrcDescrPrint Proofs.DescrPrintSrcP Model.DistFam Model.Stoch Src.SrcPrint Proofs.PrintSrcP.
 From GBS Require Props.C03.
 Import ListNotations.
 
@@ -113,6 +113,25 @@ Theorem C01_source_descriptor_round_trip : forall (fprint : num -> str) raw n pr
   parse_descr_src (print_descr fprint true d) n pre atom = OK d.
 Proof. intros fprint raw n pre atom d. rewrite !parse_descr_is_source. apply descr_round_trip. Qed.
 Print Assumptions C01_source_descriptor_round_trip.
+
+(* tie T, printer side: BondDescriptor.generate_string rebuilt from the pieces REGENERATED from bond.py (f-strings translated into
+   concatenations over the float formatter; Src/SrcDescrPrint.v) is print_descr.  The round trip is therefore a statement about a parser and
+   a printer that are BOTH rebuilt from the current source *)
+Theorem C01_descriptor_printer_is_source : forall (fprint : num -> str) ext d, print_descr_src fprint ext d = print_descr fprint ext d.
+Proof. exact print_descr_is_source. Qed.
+Print Assumptions C01_descriptor_printer_is_source.
+
+Theorem C01_source_round_trip_both_sides : forall (fprint : num -> str) raw n pre atom d,
+  parse_descr_src raw n pre atom = OK d -> Forall (reads_back fprint) (descr_weights d) ->
+  parse_descr_src (print_descr_src fprint true d) n pre atom = OK d.
+Proof. intros fprint raw n pre atom d. rewrite print_descr_is_source, !parse_descr_is_source. apply descr_round_trip. Qed.
+Print Assumptions C01_source_round_trip_both_sides.
+
+(* the stochastic-object printer rebuilt from the pieces regenerated from Stochastic.generate_string is the model's: the trailing ", " is cut
+   only after a non-empty token list (the defect repaired by the fix commit recorded in known_findings.json) *)
+Theorem C01_object_printer_is_source : forall (fprint : num -> str) dprint ext s, print_stoch_src fprint dprint ext s = print_stoch fprint dprint ext s.
+Proof. exact print_stoch_is_source. Qed.
+Print Assumptions C01_object_printer_is_source.
 
 (* the hypotheses are met: a descriptor outside the finite universe (id 1234, a list of three numbers) *)
 Example C01_round_trip_example :
